@@ -7,14 +7,7 @@ def functions_pre():
     import pregex.core.pre as pre, pregex.core.groups as gr, pregex.core.operators as op, pregex.core.quantifiers as qu
     import pregex.core.assertions as asr
     P = pre.Pregex
-    return common.src_fingerprint([P._Pregex__infer_type, P._concat_conditional_group, P._quantify_conditional_group,
-                                   P._assert_conditional_group, P._to_pregex, P.concat, P.either, P.enclose, P.capture, P.group,
-                                   P.optional, P.indefinite, P.one_or_more, P.exactly, P.at_least, P.at_most,
-                                   P.at_least_at_most, P.followed_by, P.preceded_by, P.enclosed_by, P.not_followed_by,
-                                   P.not_preceded_by, P.not_enclosed_by, P.match_at_start, P.match_at_end,
-                                   P.match_at_line_start, P.match_at_line_end, P.__add__, P.__radd__, P.__mul__, P.__rmul__,
-                                   gr.Capture.__init__, gr.Group.__init__, gr.Conditional.__init__, gr.Backreference.__init__,
-                                   op.Concat.__mro__[1].__init__, qu.Optional.__mro__[1].__init__, asr.FollowedBy.__mro__[1].__init__])
+    return common.src_fingerprint(common.resolve([(P, "_Pregex__infer_type"), (P, "_concat_conditional_group"), (P, "_quantify_conditional_group"), (P, "_assert_conditional_group"), (P, "_to_pregex"), (P, "concat"), (P, "either"), (P, "enclose"), (P, "capture"), (P, "group"), (P, "optional"), (P, "indefinite"), (P, "one_or_more"), (P, "exactly"), (P, "at_least"), (P, "at_most"), (P, "at_least_at_most"), (P, "followed_by"), (P, "preceded_by"), (P, "enclosed_by"), (P, "not_followed_by"), (P, "not_preceded_by"), (P, "not_enclosed_by"), (P, "match_at_start"), (P, "match_at_end"), (P, "match_at_line_start"), (P, "match_at_line_end"), (P, "__add__"), (P, "__radd__"), (P, "__mul__"), (P, "__rmul__"), (gr.Capture, "__init__"), (gr.Group, "__init__"), (gr.Conditional, "__init__"), (gr.Backreference, "__init__"), (op.Concat.__mro__[1], "__init__"), (qu.Optional.__mro__[1], "__init__"), (asr.FollowedBy.__mro__[1], "__init__")]))
 
 
 EXPLANATION = ("Programs (DSL expression trees) are enumerated; each is built by the real code in class / method / operator spelling; "
